@@ -120,6 +120,8 @@ func checkC10(tier, replay string) int {
 					if len(v) <= 2 && fl&1 != 0 {
 						// a thread with a private filter: the kernel refuses thread-sync; nil is only acceptable if everyone is covered
 						scripts = append(scripts, tsyncScript{Phases: v, Flags: fl, LoaderMain: lm, NNP: true, Divergent: true})
+						// seccomp(2) itself answers ENOSYS (outer filter): a nil result is only acceptable if everyone is covered
+						scripts = append(scripts, tsyncScript{Phases: v, Flags: fl, LoaderMain: lm, NNP: true, OuterENOSYS: true})
 						// the same policy was already loaded without thread-sync on the loader: the sync load must still cover everyone
 						scripts = append(scripts, tsyncScript{Phases: v, Flags: fl, LoaderMain: lm, NNP: len(v)%2 == 1, Preload: true})
 					}
@@ -161,7 +163,7 @@ func checkC10(tier, replay string) int {
 			return
 		}
 		key := fmt.Sprintf("flags=%d", sc.Flags)
-		if rep.Err != nil && sc.Divergent {
+		if rep.Err != nil && (sc.Divergent || sc.OuterENOSYS) {
 			atomic.AddInt64(&refused, 1)
 			return // refusal reported as an error: nothing to check
 		}
@@ -184,7 +186,11 @@ func checkC10(tier, replay string) int {
 				ctx.Violation("C10:filtered-before-load", "a thread was filtered before any load", sc)
 			}
 			if tsync {
-				if t.ProbeErrno != 1 || t.Seccomp != 2 || t.Filters < 1 {
+				minF := 1
+				if sc.OuterENOSYS {
+					minF = 2
+				}
+				if t.ProbeErrno != 1 || t.Seccomp != 2 || t.Filters < minF {
 					ctx.Violation("C10:thread-not-covered:"+t.Phase, fmt.Sprintf("thread-sync load returned nil but thread %d (phase %s, /proc before load: %s, born after: %v) is not filtered: probe errno %d, Seccomp %d, filters %d; phases %v flags %d", t.Tid, t.Phase, t.PhaseSeen, t.BornAfter, t.ProbeErrno, t.Seccomp, t.Filters, sc.Phases, sc.Flags), sc)
 				}
 			} else if !t.BornAfter && !(sc.Divergent && t.Tid == rep.Threads[0].Tid) {
@@ -195,7 +201,7 @@ func checkC10(tier, replay string) int {
 		}
 		for _, o := range rep.Scan {
 			atomic.AddInt64(&threadsChecked, 1)
-			if tsync && (o.Seccomp != 2 || o.Filters < 1) {
+			if tsync && (o.Seccomp != 2 || o.Filters < 1 || (sc.OuterENOSYS && o.Filters < 2)) {
 				ctx.Violation("C10:scan-thread-not-covered", fmt.Sprintf("after a thread-sync load thread %d (%s) has Seccomp=%d filters=%d", o.Tid, o.Role, o.Seccomp, o.Filters), sc)
 			}
 			if !tsync && o.Tid == rep.LoaderTid && o.Filters < 1 {
